@@ -28,6 +28,8 @@ func runC11(w *World, r *Report) {
 	la := NewLockAn(w)
 	hrLockOwnersUsePointerReceivers(w, r, "R1", "lunar/")
 	hrMessageArgsByName(w, r, "R2")
+	hrEarlyResponseMessage(w, r, "R2")
+	hrDelayedUnmanageWaitsRetention(w, r, "R4")
 	hrDiagnosisWorkerKey(w, r, "R2")
 	hrWriteErrorReturned(w, r, "R6")
 	hrVersionBumpReturnsPrevious(w, r, "R4")
